@@ -53,7 +53,7 @@ def make(prop):
     return run
 
 
-CLAIMED = ['C01', 'C02', 'C03', 'C04', 'C05', 'C06', 'C07', 'C09', 'C10', 'C11', 'C12', 'C13', 'C14', 'C18']
+CLAIMED = ['C01', 'C02', 'C03', 'C04', 'C05', 'C06', 'C07', 'C08', 'C09', 'C10', 'C11', 'C12', 'C13', 'C14', 'C18']
 CHECKS = {p: make(p) for p in CLAIMED}
 
 import engine_m  # noqa: E402,F401  registers M_FUNCS
